@@ -20,7 +20,10 @@ HOSTS = {'start': 'start.test', 'sub': 'sub.start.test', 'other': 'other.test', 
 ROOT = 'http://start.test/any/dir/index.html'
 PATHS = ['/any/dir/f.html', '/any/dir/sub/f.html', '/any/f.html', '/any/other/f.html', '/inc/f.html', '/exc/f.html',
          '/exc/sub/f.html', '/any/dir/ACC.html', '/any/dir/REJ.html', '/any/dir/f.jpg', '/any/dir/',
-         '/any/dir/ACCREJ.jpg', '/inc/sub/deeper/f.html', '/inc/', '/exc/']
+         '/any/dir/ACCREJ.jpg', '/inc/sub/deeper/f.html', '/inc/', '/exc/',
+         # siblings whose name merely extends (or is extended by) a configured directory's name
+         '/any/dir-old/f.html', '/any/dir2/', '/any/di/f.html', '/any/dir', '/inc2/f.html', '/excel/f.html',
+         '/in/f.html', '/inc', '/any/dir/inc/f.html', '/any/dir/exc/f.html']
 
 CFG0 = dict(recursive=True, pagereq=False, level=0, prlevel=0, noparent=False, spanhosts=False, spanpr=False,
             spanlp=False, domacc=False, domrej=False, hostacc=False, hostrej=False, httpsonly=False, followftp=False,
@@ -97,7 +100,8 @@ def abstract_rec(r):
             prel = 'sibling'
     return {'scheme': r['scheme'], 'pscheme': r['pscheme'], 'hostc': r['hostc'], 'phostc': r['phostc'],
             'sameport': r['sameport'], 'level': r['level'], 'inline': r['inline'], 'try': r['tr'], 'prel': prel,
-            'rxa': 'ACC' in p, 'rxr': 'REJ' in p, 'da': p.startswith('/inc/'), 'dr': p.startswith('/exc/'),
+            'rxa': 'ACC' in p, 'rxr': 'REJ' in p, 'da': (p + '/').startswith('/inc/'), 'dr': (p + '/').startswith('/exc/'),   # '/inc' itself names the directory (is_subdir's documented reading)
+           
             'sfa': name.endswith('html'), 'sfr': name.endswith('jpg'), 'noname': name == '',
             'redirect': r['redirect']}
 
